@@ -2,8 +2,8 @@
    [vm_compute] on a concrete witness for the _refuted / _nonvacuous statements) and followed by Print Assumptions.
 
    Flag sets (Model.flags): [head] = /repo HEAD (cd04fe0): everything found with this check is fixed there except that
-   the receiver never compares sequence numbers (open finding stale-redelivery-applied, flag f_stale); [repaired] =
-   [head] plus the dropping of messages that are not above the last sequence number seen; [defective] = /repo before
+   three open findings (f_stale: the receiver never compares sequence numbers; f_lagdel: bulk sync of a lagging
+   standby; f_race: sender steps not atomic); [repaired] = [head] with those repaired; [defective] = /repo before
    the C11 fixes bb5ec1b, 88d6de6, 43d3a11, cd04fe0.  Theorems named *_before_<commit>_* are historical witnesses of
    defects fixed in that commit; the correspondence check runs [repaired] and [head] only, so a regression to any of
    them is a VIOLATION. *)
@@ -441,10 +441,10 @@ Proof.
 Qed.
 Print Assumptions C11_bulk_nonvacuous.
 
-(* Open finding bulk-sync-cannot-convey-missed-delete (/repo HEAD, flag f_lagdel): the standby holds session 1, the
+(* Open finding bulk-sync-lagging-standby-not-converging (/repo HEAD, flag f_lagdel): the standby holds session 1, the
    DELETE is not delivered, a bulk sync follows (FromSequence = 1) and the stream is delivered to the end — the
-   session and its lease stay on the standby for ever.  The repaired model (a snapshot means "replace all", and the
-   window is replayed only when it holds no DELETE the standby still needs) converges on the same history. *)
+   session and its lease stay on the standby for ever.  The repaired model (a lagging standby gets a snapshot, and a snapshot means
+   "replace all") converges on the same history. *)
 Theorem C11_bulk_lagging_head_refuted :
   exists ops,
   let y := sys_run head (sys_init 8 [1%N] ex_reg) ops in
